@@ -291,9 +291,12 @@ def zero_test(cond, truth=True):
     for (l, op, r) in rel_forms(n, pol):
         if r.get('v') is not None and r['k'] != 'CXXBoolLiteralExpr':
             v = r.get('v')
-            if (op, v) in (('==', 0), ('<=', 0), ('<', 1)):
+            # `x <= 0` / `x < 1` say "zero" (and `x > 0` / `x >= 1` "non-zero") only for a value that cannot be negative
+            t_ = (l.type() if hasattr(l, 'type') else '').replace('const ', '').strip()
+            nonneg = ('unsigned' in t_) or t_.endswith('*') or t_ in ('bool', '_Bool', 'size_t') or l.is_call() and (l.get('q') or '').split('::')[-1] in ('GetNumItems', 'Length', 'GetNumBytes')
+            if (op, v) == ('==', 0) or (nonneg and (op, v) in (('<=', 0), ('<', 1))):
                 return l, True
-            if (op, v) in (('!=', 0), ('>', 0), ('>=', 1)):
+            if (op, v) == ('!=', 0) or (nonneg and (op, v) in (('>', 0), ('>=', 1))):
                 return l, False
     if n['k'] in ('DeclRefExpr', 'MemberExpr') and is_integral_type(n.type()) and 'bool' not in n.type():
         return n, not pol
